@@ -5,6 +5,7 @@
 -/
 import Kingdon.Properties.C09
 import Kingdon.Lemmas.SourceOpDict
+import Kingdon.Lemmas.SourceFuncNames
 namespace Kingdon.C09
 open Kingdon Kingdon.OD Kingdon.SrcEq
 
@@ -40,5 +41,23 @@ theorem source_call_served_by_own_function (canon : List Nat) (hc : canon.Nodup)
       simp only [List.map, run] at this
       simpa using congrArg List.head? this)
   exact ⟨s', hs'⟩
+
+/-- **function names are unique as strings** (what fix ace2c46 established, now about the strings the source builds):
+    `MultiVector.type_name` of the current source renders the model's type name, and the name `do_codegen` assembles,
+    `<codegen.__name__>_<type name>_x_<type name>…`, determines the ordered key tuples of all operands — two different
+    generated functions of one operator never share a slot of `Algebra.numspace` -/
+theorem source_type_name_is_model (c : Cfg) (hb : c.basis ≠ []) (ks : List Nat) :
+    Src.type_name (algOf c) (ks.map Int.ofNat) = .ok (typeNameStr (typeName c.canonKeys ks)) :=
+  type_name_eq_partial c hb ks
+
+theorem source_function_names_unique (canon : List Nat) (hc : canon.Nodup) (codegenName : List Char)
+    (K K' : List (List Nat))
+    (h : funcNameStr codegenName (K.map fun ks => typeNameStr (typeName canon ks)) =
+         funcNameStr codegenName (K'.map fun ks => typeNameStr (typeName canon ks))) :
+    K = K' :=
+  source_names_unique canon hc codegenName K K' h
+
+/-- non-vacuity: the translated python on the key tuples (1,2,4) and (2,1,4) of the 3-D Euclidean algebra -/
+example : (Src.type_name (algOf (Cfg.default [1, 1, 1] 1)) [2, 1, 4]).toOption = some "14_o2_1_4".toList := by decide +kernel
 
 end Kingdon.C09
